@@ -5,6 +5,19 @@ HERE = os.path.dirname(os.path.dirname(os.path.abspath(__file__)))
 ALL = ['C%02d' % i for i in range(1, 21)]
 
 CLAIMED = {
+ 'C11': dict(
+    level='model_checking',
+    text='DebugMap.tla states the well-formedness of a debug map as predicates over the decoded instruction starts, the statement and '
+         'routine records and the source facts of the generator (newline offsets, per line the statement kinds written on it and the header '
+         'line of the enclosing block): ranges on instruction boundaries; every instruction of a body covered with a unique innermost '
+         'statement; ranges nested or disjoint and nested like the source blocks; each procedure record covering exactly the code between '
+         'its FRAME instruction and the next routine; recorded line = line of the recorded source offset; extract inside that line; record '
+         'class compatible with the statement written on that line. TLC evaluates them on the real maps of -g builds of generated programs '
+         'and of the statement shapes of Shapes.tla at every optimisation level. The dynamic half (each device interaction and run-time '
+         'error reported against the line of the statement that caused it) is validated by Trace_QB.tla on the same builds.',
+    note='Trusted: TLC, the unparser\'s per-line facts, the decoder used for instruction starts. The main program\'s prologue, FRAME and final RET are exempt from coverage.',
+    technique='TLA+ predicates evaluated by TLC on real debug maps + trace validation of event/error lines',
+    design='6 C11'),
  'C09': dict(
     level='model_checking',
     text='Module.tla is the decoding automaton of the binary container (sections, literal table, DATA parts and items incl. empty ones, '
